@@ -347,6 +347,6 @@ func bigFamily(r *hx.Rng, tier string) []BigDesc {
 	pick(func(b BigDesc) bool { return b.Tri && b.NF*13 > 65536 && b.Mask == 1 }, 1)
 	pick(func(b BigDesc) bool { return b.Tri && b.Mask&8 != 0 && b.NF*38 > 65536 && b.NF < 1800 }, 1)
 	pick(func(b BigDesc) bool { return b.Tri && b.N <= 400 && b.NF <= 400 }, 1)
-	pick(func(b BigDesc) bool { return b.Tri && b.N > 65536 }, 1)
+	pick(func(b BigDesc) bool { return b.Tri && b.N > 65536 }, 2)
 	return q
 }
